@@ -352,12 +352,6 @@ Section WithKey.
       then Throw RuntimeError
       else Ok (xor_keystream_inplace_with_key (ss_ct s) (ss_nonce s) (subkey_of pk (ss_nonce s))).
   Proof. intros H. unfold ss_reveal. destruct (ss_ct s); [contradiction|reflexivity]. Qed.
-  Lemma ss_rotate_ne n2 s : ss_ct s <> [] ->
-    ss_rotate pk n2 s =
-      let ct' := rotate_loop (length (ss_ct s)) (hmac1 pk (ss_nonce s)) (hmac1 pk n2) (ss_nonce s) n2 0 (ss_ct s) in
-      {| ss_ct := ct'; ss_nonce := n2; ss_tag := hmac2 pk n2 ct' |}.
-  Proof. intros H. unfold ss_rotate. destruct (ss_ct s); [contradiction|reflexivity]. Qed.
-
   Lemma nonempty_length {A} (l : list A) : l <> [] <-> length l <> 0%nat.
   Proof. destruct l; cbn [length]; split; intros H; try congruence; lia. Qed.
 
@@ -380,6 +374,13 @@ Section WithKey.
   Lemma tagcmp_refl a : forallb (fun p : N * N => fst p =? snd p) (combine a a) = true.
   Proof. now apply tagcmp_eq. Qed.
 
+  Lemma ss_rotate_ne n2 s : ss_ct s <> [] ->
+    forallb (fun p => fst p =? snd p) (combine (ss_tag s) (hmac2 pk (ss_nonce s) (ss_ct s))) = true ->
+    ss_rotate pk n2 s =
+      let ct' := rotate_loop (length (ss_ct s)) (hmac1 pk (ss_nonce s)) (hmac1 pk n2) (ss_nonce s) n2 0 (ss_ct s) in
+      {| ss_ct := ct'; ss_nonce := n2; ss_tag := hmac2 pk n2 ct' |}.
+  Proof. intros H Ht. unfold ss_rotate. destruct (ss_ct s); [contradiction|]. rewrite Ht. reflexivity. Qed.
+
   (* exact recall of what set stored *)
   Lemma reveal_set nonce p : length nonce = 12%nat -> ss_reveal pk (ss_set pk nonce p) = Ok p.
   Proof.
@@ -398,7 +399,7 @@ Section WithKey.
     ss_rotate pk n2 (ss_set pk n1 p) = ss_set pk n2 p.
   Proof.
     intros H1 H2 Hp.
-    rewrite ss_rotate_ne by (now apply ss_set_ct_ne).
+    rewrite ss_rotate_ne; [|now apply ss_set_ct_ne|rewrite (ss_set_ne n1 p Hp); cbn [ss_ct ss_nonce ss_tag]; apply tagcmp_refl].
     rewrite (ss_set_ne n2 p Hp). rewrite ss_set_nonce, ss_set_ct. cbv zeta.
     assert (E : rotate_loop (length (xor_keystream_copy pk n1 p)) (hmac1 pk n1) (hmac1 pk n2) n1 n2 0
                   (xor_keystream_copy pk n1 p) = xor_keystream_copy pk n2 p).
